@@ -202,6 +202,16 @@ Definition readdir_matches_model (sz : N) (d : disk) (i cookie count : N) (ents 
   forallb (fun p => let '(e, (idx, (nm, inum))) := p in
                     bytes_eqb (de_name e) nm && (de_fileid e =? inum) && (de_cookie e =? (N.of_nat idx + 1) * DIRENTSZ))
           (combine ents es).
+(* ---------- directories between two consecutive checkpoints: DirModel.step_ok_b on the decoded slots ---------- *)
+From V Require Model.DirModel.
+Definition dir_slot_table (sz : N) (d : disk) (ar : abs_result) : list (N * (N * list (option (name * N)))) :=
+  omap (fun p => if ab_kind (snd p) =? 2 then Some (fst p, (ab_gen (snd p), dir_slots_of sz d (fst p))) else None) (r_objs ar).
+(* directories (same number, same generation) in which an entry moved or that shrank *)
+Definition slots_moved (old new : list (N * (N * list (option (name * N))))) : list N :=
+  let om : gmap N (N * list (option (name * N))) := list_to_map old in
+  omap (fun p => match om !! fst p with
+                 | Some (g0, sl0) => if (g0 =? fst (snd p)) && negb (DirModel.step_ok_b sl0 (snd (snd p))) then Some (fst p) else None
+                 | None => None end) new.
 Definition readdirplus_matches_model (sz : N) (d : disk) (i cookie dircount maxcount : N) (ents : list odirent) (eof : bool) : bool :=
   let '(es, meof, _) := model_pageplus (dir_slots_of sz d i) cookie dircount maxcount in
   Bool.eqb eof meof &&
